@@ -222,15 +222,22 @@ def c13(ctx, rep):
     # 2. generated salt is reported and used
     f_fa = p.find_function("FileAnonymizer.__init__")
     ok_log = False
+    from .checks_ip import _random_call
+    n_gen = 0
     for path in A.paths(f_fa).paths:
         if not path.feasible():
             continue
-        gen = path.truth(("compare", ("is",), (("attr", SELF, "salt"), ("const", None))))
-        if gen is True:
-            for e, ls in path.calls():
-                names = [t[1] for t in G.resolve_callee(e.a[1], f_fa) if t[0] == "ext"]
-                if any(nm in ("logging.warning", "logging.error", "logging.critical", "logging.warn") for nm in names) and ("attr", SELF, "salt") in e.a[2]:
-                    ok_log = True
+        stores = [e for e, ls in path.stores() if e.kind == "store_attr" and e.a == SELF and e.b == "salt"]
+        if not stores or not _random_call(stores[-1].c):
+            continue
+        n_gen += 1
+        gen = stores[-1].c
+        logged = False
+        for e, ls in path.calls():
+            names = [t[1] for t in G.resolve_callee(e.a[1], f_fa) if t[0] == "ext"]
+            if any(nm in ("logging.warning", "logging.error", "logging.critical", "logging.warn") for nm in names) and (("attr", SELF, "salt") in e.a[2] or gen in e.a[2]):
+                logged = True
+        ok_log = logged if n_gen == 1 else (ok_log and logged)
     rep.ob("C13.generated-salt-reported", "FileAnonymizer.__init__", ok_log, "when no salt is given the generated salt is logged at WARNING or above", W(f_fa), key="C13.generated-salt-reported|FileAnonymizer.__init__")
     from .checks_ip import _salt_defaulting
     _salt_defaulting(ctx, rep, "C13")
@@ -913,10 +920,20 @@ def _codec_structure(ctx, rep, NUM_ALPHA, EXTRA, ENCODING, fixedc):
             if pre == ("call", ("builtin", "ord"), (pc,), ()) and posts and all(x == ("binop", "%", ("carried", nme, l1.uid), modv) for x in posts):
                 ordv = nme
         ins_ok = False
+        gaps_name = None
         for bp in l1.body_paths:
             for e in bp.effects:
                 if e.kind == "call" and e.a[1][0] == "attr" and e.a[1][2] == "insert" and ordv is not None and e.a[2] == (("const", 0), ("binop", "//", ("carried", ordv, l1.uid), modv)):
                     ins_ok = True
+                    recv = strip_mut(e.a[1][1])
+                    gaps_name = recv[1] if recv[0] == "carried" else None
+                # equivalent: append while walking down, then reverse() once before the ring walk
+                if e.kind == "call" and e.a[1][0] == "attr" and e.a[1][2] == "append" and ordv is not None and e.a[2] == (("binop", "//", ("carried", ordv, l1.uid), modv),):
+                    recv = strip_mut(e.a[1][1])
+                    nm = recv[1] if recv[0] == "carried" else None
+                    if nm is not None and l2.iter == ("mut", ("loopout", nm, l1.uid), "reverse", ()):
+                        ins_ok = True
+                        gaps_name = nm
         ok_dec = it_ok and ordv is not None and ins_ok
         gapv = ("loopvar", l2.uid, l2.iter, ())
         pv = None
@@ -929,7 +946,7 @@ def _codec_structure(ctx, rep, NUM_ALPHA, EXTRA, ENCODING, fixedc):
         for nme, (pre, posts) in l2.carried.items():
             if pre == ("const", "") and pv is not None and posts and all(x[0] == "binop" and x[1] == "+" and x[2] == ("carried", nme, l2.uid) for x in posts):
                 acc_ok = True
-        ok_emit = pv is not None and acc_ok and strip_mut(l2.iter)[0] in ("list",)
+        ok_emit = pv is not None and acc_ok and (strip_mut(l2.iter)[0] in ("list",) or (gaps_name is not None and strip_mut(l2.iter) == ("loopout", gaps_name, l1.uid)))
     rep.ob("C18.encode-greedy", "_gap_encode", ok_dec, "weights are walked from largest to smallest with // and %= on the same running value, gaps inserted at the front (greedy mixed-radix decomposition)", W(f_ge), key="C18.encode-greedy|_gap_encode")
     rep.ob("C18.encode-ring", "_gap_encode", ok_emit, "per gap the emitted character is NUM_ALPHA[(index(prev) + gap + 1) mod |alphabet|], prev advancing to the emitted character, output accumulated in order", W(f_ge), key="C18.encode-ring|_gap_encode")
     # juniper_decrypt
@@ -943,15 +960,12 @@ def _codec_structure(ctx, rep, NUM_ALPHA, EXTRA, ENCODING, fixedc):
         if path.kind == "raise":
             inloop = any(t[0] == "inloop" for t, pol in path.atoms())
             if not inloop:
-                neg = lambda x: ("unop", "not", x)
-                disj = False
-                for t, pol in path.atoms():
-                    if pol and t[0] == "boolop" and t[1] == "or" and neg(valid_test) in t[2] and all(x in (neg(valid_test), neg(crypt)) for x in t[2]):
-                        disj = True
-                refuse_ok = refuse_ok or (show(path.result[1]).startswith("ValueError") and (disj or path.truth(valid_test) is False))
+                # the refusal is taken exactly when the string is empty or VALID does not match
+                exact = path.possible({valid_test: True, crypt: True}) is False
+                refuse_ok = refuse_ok or (show(path.result[1]).startswith("ValueError") and exact)
             continue
         n_ret += 1
-        vt = path.truth(valid_test)
+        vt = True if path.possible({valid_test: False}) is False else None
         rep.ob("C18.validated-before-tables", "juniper_decrypt", vt is True, "decoding proceeds only when VALID matched (%s)" % path.describe()[:100], W(f_dec), key="C18.validated-before-tables|juniper_decrypt")
         loops = [e.a for e in path.effects if e.kind == "loop"]
         if len(loops) != 1:
@@ -963,9 +977,13 @@ def _codec_structure(ctx, rep, NUM_ALPHA, EXTRA, ENCODING, fixedc):
         nib1 = ("call", g("_nibble"), (chars0, ("const", 1)), ())
         first = ("sub", nib1, ("const", 0))
         nib2 = ("call", g("_nibble"), (("sub", nib1, ("const", 1)), ("sub", g("EXTRA"), first)), ())
-        pre_ok = wl.carried.get("chars", (None,))[0] == ("sub", nib2, ("const", 1)) and wl.carried.get("prev", (None,))[0] == first
-        rep.ob("C18.decode-prelude", "juniper_decrypt", pre_ok, "before the group loop: MAGIC removed, prev = the salt character, EXTRA[salt] fillers skipped (chars=%s, prev=%s)" % (show(wl.carried.get("chars", (None,))[0])[:80], show(wl.carried.get("prev", (None,))[0])[:60]), W(f_dec, wl.node), key="C18.decode-prelude|juniper_decrypt")
-        dec_name = [n for n, (pre, posts) in wl.carried.items() if pre == ("const", "")]
+        pres = {n: pre for n, (pre, posts) in wl.carried.items()}
+        # inner (per-character) loops may carry prev as well: look through nested carried placeholders
+        rest_var = [n for n, pre in pres.items() if pre == ("sub", nib2, ("const", 1))]
+        prev_var = [n for n, pre in pres.items() if pre == first]
+        pre_ok = len(rest_var) == 1 and len(prev_var) == 1 and wl.test == ("carried", rest_var[0], wl.uid)
+        rep.ob("C18.decode-prelude", "juniper_decrypt", pre_ok, "before the group loop: MAGIC removed, prev = the salt character, EXTRA[salt] fillers skipped, loop runs while characters remain (%s)" % {n: show(v)[:60] for n, v in pres.items()}, W(f_dec, wl.node), key="C18.decode-prelude|juniper_decrypt")
+        dec_name = [n for n, (pre, posts) in wl.carried.items() if pre in (("const", ""), ("list", ()))]
         row_ok = False
         for bp in wl.body_paths:
             for e, ls in walk_effects(bp.effects):
@@ -1001,15 +1019,17 @@ def _codec_structure(ctx, rep, NUM_ALPHA, EXTRA, ENCODING, fixedc):
             rep.fail("C18.encode-shape", f_enc.name, "expected one loop over the plaintext", W(f_enc))
             continue
         el = loops[0]
-        rep.ob("C18.encode-all-chars", f_enc.name, el.iter == plain, "loop iterates %s; expected every character of the plaintext (code points, not UTF-8 bytes)" % show(el.iter), W(f_enc, el.node), key="C18.encode-all-chars|juniper_nonrandom_encrypt")
-        pv = ("loopvar", el.uid, el.iter, ())
+        enum_form = el.iter == ("call", ("builtin", "enumerate"), (plain,), ())
+        rep.ob("C18.encode-all-chars", f_enc.name, el.iter == plain or enum_form, "loop iterates %s; expected every character of the plaintext (code points, not UTF-8 bytes)" % show(el.iter), W(f_enc, el.node), key="C18.encode-all-chars|juniper_nonrandom_encrypt")
+        pv = ("loopvar", el.uid, el.iter, (1,)) if enum_form else ("loopvar", el.uid, el.iter, ())
         posn = [n for n, (pre, posts) in el.carried.items() if pre == ("const", 0) and posts and all(x == ("binop", "+", ("carried", n, el.uid), ("const", 1)) for x in posts)]
+        pos_term = ("loopvar", el.uid, el.iter, (0,)) if enum_form else (("carried", posn[0], el.uid) if posn else None)
         row_ok = prev_ok = False
         for bp in el.body_paths:
             for e in bp.effects:
-                if e.kind == "call" and M.callee_name(e.a) == "_gap_encode" and posn:
+                if e.kind == "call" and M.callee_name(e.a) == "_gap_encode" and pos_term is not None:
                     a = e.a[2]
-                    row_ok = len(a) == 3 and a[0] == pv and a[2] == ("sub", g("ENCODING"), ("binop", "%", ("carried", posn[0], el.uid), ln(g("ENCODING"))))
+                    row_ok = len(a) == 3 and a[0] == pv and a[2] == ("sub", g("ENCODING"), ("binop", "%", pos_term, ln(g("ENCODING"))))
                     prevn = a[1][1] if len(a) == 3 and a[1][0] == "carried" else None
                     if prevn is not None:
                         pre, posts = el.carried.get(prevn, (None, []))
